@@ -23,7 +23,7 @@ RULE = ('mother compartments with 14 variables covering every registered divider
         'then each daughter driven alone through in-place updaters; non-trivial = division happened and the '
         'independence phase applied >=2 in-place updates; distinct = distinct case spec. A direct grid over '
         'divider functions accompanies every case.')
-PLAN = {'quick': {'n': 1600, 'min_cases': 300}, 'thorough': {'n': 40000, 'min_cases': 5000}}
+PLAN = {'quick': {'n': 4000, 'min_cases': 300}, 'thorough': {'n': 40000, 'min_cases': 5000}}
 REQUIRED_ORACLES = ['relation.split_int', 'relation.split_float', 'relation.split_dict', 'relation.binomial',
                     'relation.set', 'relation.zero', 'relation.set_value', 'explicit_initial_state',
                     'defaults_complete', 'mother_removed', 'outside_unchanged', 'separate_instances',
